@@ -498,6 +498,12 @@ class SymEval:
             pair = tuple(sorted((a, b), key=repr))
             t = ("is", pair)
             return t if isinstance(op, ast.Is) else ("not", t)
+        if isinstance(op, (ast.In, ast.NotIn)) and isinstance(b, tuple) and b and b[0] in ("tuple", "list", "set") and \
+                1 <= len(b[1]) <= 6 and not _is_stringy(a):
+            # x in (u, v, w)  is  x == u or x == v or x == w
+            parts = tuple(sorted({self._cmp(ast.Eq(), a, x) for x in b[1]}, key=repr))
+            t = parts[0] if len(parts) == 1 else ("or", parts)
+            return t if isinstance(op, ast.In) else negate(t)
         if isinstance(op, (ast.In, ast.NotIn)):
             t = ("in", a, b)
             return t if isinstance(op, ast.In) else ("not", t)
